@@ -319,7 +319,7 @@ hmac_md5_init(const uint8_t *key, const size_t key_len, hmac_md5_ctx_p hctx) {
 		i = MD5_HASH_SIZE;
 		md5_final(&hctx->ctx, (uint8_t*)k_ipad);
 		md5_init(&hctx->ctx); /* Reinit context for 1st pass. */
-	} else {
+	} else if (0 != i) { /* Empty key may be NULL: memcpy(..., NULL, 0) is UB. */
 		memcpy(k_ipad, key, i);
 	}
 	memset((((uint8_t*)k_ipad) + i), 0x00, (MD5_MSG_BLK_SIZE - i));
